@@ -101,9 +101,9 @@ theorem C01_take_member_of_merge {α : Type} (max n j : Nat) :
     ∀ s, SReach (plugOp j (Take.machine α max) (Merge.machine α n true)) s → SafeFor 1 s :=
   fun s hs => safeFor_of_basicSafe _ s hs (LateMember.plugOp_take_merge_basicSafe max n j s hs) 1 (by decide)
 
-theorem C01_relay_member_of_merge {σ α : Type} (k : Relay.Kind σ α α) (hk : k.slotted = false → ∀ s a, (k.xfer s a).2 ≠ none) (n j : Nat) :
-    ∀ s, SReach (plugOp j (Relay.machine k) (Merge.machine α n true)) s → SafeFor 1 s :=
-  fun s hs => safeFor_of_basicSafe _ s hs (LateMember.plugOp_relay_merge_basicSafe k hk n j s hs) 1 (by decide)
+theorem C01_relay_member_of_merge {σ α : Type} (kd : Relay.Kind σ α α) (hk : kd.slotted = false → ∀ s a, (kd.xfer s a).2 ≠ none) (n j : Nat) :
+    ∀ s, SReach (plugOp j (Relay.machine kd) (Merge.machine α n true)) s → SafeFor 1 s :=
+  fun s hs => safeFor_of_basicSafe _ s hs (LateMember.plugOp_relay_merge_basicSafe kd hk n j s hs) 1 (by decide)
 
 
 /-- `share`, EVERY conformant environment (nested fan-out included): the only phase-level violations share can commit are deliveries
